@@ -176,7 +176,9 @@ def _is_fusable(node: ast.AST, func_name: str) -> bool:
 
 def _is_first_of(node: ast.AST) -> bool:
     "`First(seq)`"
-    return is_call_of(node, "First") and len(node.args) == 1 and len(node.keywords) == 0  # type: ignore
+    if not is_call_of(node, "First"):
+        return False
+    return len(node.args) == 1 and len(node.keywords) == 0  # type: ignore
 
 
 def _is_method_call_on_first(node: ast.Call):
@@ -660,7 +662,9 @@ class simplify_chained_calls(FuncADLNodeTransformer):
             return ast.Subscript(v, s, ast.Load())
         return found
 
-    def visit_Subscript_Dict_with_value(self, v: ast.Dict, s: Union[str, int]) -> Optional[ast.AST]:
+    def visit_Subscript_Dict_with_value(
+        self, v: ast.Dict, s: Union[str, int]
+    ) -> Optional[ast.AST]:
         "Do the lookup for the dict. Returns None if the dict literal does not define the key."
         if not all(isinstance(k, ast.Constant) for k in v.keys):
             return None
@@ -741,7 +745,9 @@ class simplify_chained_calls(FuncADLNodeTransformer):
         a = arg_name()
         select = make_Select(
             first,
-            lambda_build(a, ast.Attribute(value=ast.Name(a, ast.Load()), attr=attr, ctx=ast.Load())),
+            lambda_build(
+                a, ast.Attribute(value=ast.Name(a, ast.Load()), attr=attr, ctx=ast.Load())
+            ),
         )
 
         return self.visit(function_call("First", [select]))
